@@ -149,6 +149,60 @@ theorem nameEq_iff (a b : Name) : nameEq a b = true ↔ lowerName a = lowerName 
   rw [beq_iff_eq]
   exact cmpOrder_eq_iff a b
 
+/-- decoding up to `endp` never looks at octets from `endp` on -/
+theorem fromWireAux_take (w : Bytes) (endp cur bp f : Nat) (acc : List Label) (he : endp ≤ w.length) :
+    fromWireAux w endp cur bp f acc = fromWireAux (w.take endp) endp cur bp f acc := by
+  have hlen : (w.take endp).length = endp := by simp; omega
+  fun_induction fromWireAux w endp cur bp f acc with
+  | case1 cur bp f acc h h0 =>
+    conv => rhs; rw [fromWireAux]
+    have hc : cur < endp ∧ endp ≤ (w.take endp).length := ⟨h.1, by omega⟩
+    have hg : (w.take endp)[cur]'(by omega) = w[cur]'(by omega) := by simp
+    simp only [hc, and_self, dite_true, hg, h0, if_true]
+  | case2 cur bp f acc h h0 h1 h2 =>
+    conv => rhs; rw [fromWireAux]
+    have hc : cur < endp ∧ endp ≤ (w.take endp).length := ⟨h.1, by omega⟩
+    have hg : (w.take endp)[cur]'(by omega) = w[cur]'(by omega) := by simp
+    simp only [hc, and_self, dite_true, hg, h0, if_false, h1, if_true, h2]
+  | case3 cur bp f acc h h0 h1 h2 ih =>
+    conv => rhs; rw [fromWireAux]
+    have hc : cur < endp ∧ endp ≤ (w.take endp).length := ⟨h.1, by omega⟩
+    have hg : (w.take endp)[cur]'(by omega) = w[cur]'(by omega) := by simp
+    have hs : ((w.take endp).drop (cur + 1)).take (w[cur]'(by omega)) = (w.drop (cur + 1)).take (w[cur]'(by omega)) := by
+      rw [List.drop_take, List.take_take]
+      congr 1
+      omega
+    simp only [hc, and_self, dite_true, hg, h0, if_false, h1, if_true, h2, hs]
+    exact ih
+  | case4 cur bp f acc h h0 h1 h2 h3 h4 =>
+    conv => rhs; rw [fromWireAux]
+    have hc : cur < endp ∧ endp ≤ (w.take endp).length := ⟨h.1, by omega⟩
+    have hg : (w.take endp)[cur]'(by omega) = w[cur]'(by omega) := by simp
+    have hg1 : (w.take endp)[cur + 1]'(by omega) = w[cur + 1]'(by omega) := by simp
+    simp only [hc, and_self, dite_true, hg, hg1, h0, if_false, h1, h2, ge_iff_le, if_true, h3, h4]
+  | case5 cur bp f acc h h0 h1 h2 h3 h4 ih =>
+    conv => rhs; rw [fromWireAux]
+    have hc : cur < endp ∧ endp ≤ (w.take endp).length := ⟨h.1, by omega⟩
+    have hg : (w.take endp)[cur]'(by omega) = w[cur]'(by omega) := by simp
+    have hg1 : (w.take endp)[cur + 1]'(by omega) = w[cur + 1]'(by omega) := by simp
+    simp only [hc, and_self, dite_true, hg, hg1, h0, if_false, h1, h2, ge_iff_le, if_true, h3, h4]
+    exact ih
+  | case6 cur bp f acc h h0 h1 h2 h3 =>
+    conv => rhs; rw [fromWireAux]
+    have hc : cur < endp ∧ endp ≤ (w.take endp).length := ⟨h.1, by omega⟩
+    have hg : (w.take endp)[cur]'(by omega) = w[cur]'(by omega) := by simp
+    simp only [hc, and_self, dite_true, hg, h0, if_false, h1, h2, ge_iff_le, if_true, h3, dite_false]
+  | case7 cur bp f acc h h0 h1 h2 =>
+    conv => rhs; rw [fromWireAux]
+    have hc : cur < endp ∧ endp ≤ (w.take endp).length := ⟨h.1, by omega⟩
+    have hg : (w.take endp)[cur]'(by omega) = w[cur]'(by omega) := by simp
+    simp only [hc, and_self, dite_true, hg, h0, if_false, h1, h2, ge_iff_le]
+  | case8 cur bp f acc h =>
+    conv => rhs; rw [fromWireAux]
+    have hc : ¬ (cur < endp ∧ endp ≤ (w.take endp).length) := by
+      intro hh; exact h ⟨hh.1, he⟩
+    simp only [hc, dite_false]
+
 /-! ### absolute names are a prefix-free code on the wire -/
 
 /-- non-empty labels followed by the root label -/
